@@ -13,7 +13,26 @@ COMMON_TRUSTED = [
 def r_hex1(fn):
     return lambda toks: f"{fn} {hex_to_coq(toks[1])}"
 
+def r_c15(toks):
+    k = toks[0]
+    if k == "TSB": return f"run_tsb {hex_to_coq(toks[1])}"
+    if k == "TSU": return f"run_tsu {toks[1]}"
+    if k == "TSW": return f"run_tsw {toks[1]} {toks[2]}"
+    if k == "CRP": return f"run_crp {toks[1]} {toks[2]}"
+    if k == "CRS": return f"run_crs {hex_to_coq(toks[1])}"
+
 PROPS = {
+    "C15": dict(
+        props_files=["Props/C15.v"],
+        suites=["C15"],
+        render=r_c15,
+        rule="constructor arguments by boundary class (0, 2^32+-1, 2^33+-1, 2^34+-1, u64::MAX, ...) and random; 40-bit "
+             "encodings with every prefix x every marker-bit combination and random value bits; encode/decode of boundary "
+             "values; (earlier, distance) pairs by boundary class and random; ClockRef parts by boundary class; random "
+             "6-byte PCR slices; distinct = distinct case lines, all non-trivial (each calls the API function under test)",
+        trusted=["13818-1 2.4.3.7 PTS/DTS layout and 2.4.3.5 PCR layout as transcribed in coq/Spec/TimestampSpec.v"],
+        assumptions=["input bytes are < 256", "from_bytes / from_slice are only specified for buffers of at least 5 / 6 bytes (their documented precondition)"],
+    ),
     "C12": dict(
         props_files=["Props/C12.v"],
         suites=["C12"],
